@@ -972,7 +972,29 @@ impl<'tcx> Dumper<'tcx> {
                 o.push(("root", s(self.path(parent))));
             }
             DefKind::Macro(_) | DefKind::Mod | DefKind::AssocTy => {}
-            DefKind::Use => {}
+            DefKind::Use => {
+                let item = tcx.hir_expect_item(ldid);
+                if let hir::ItemKind::Use(up, uk) = item.kind {
+                    let segs: Vec<String> = up.segments.iter().map(|s| s.ident.name.to_string()).collect();
+                    o.push(("use_path", s(segs.join("::"))));
+                    let (k, name) = match uk {
+                        hir::UseKind::Single(id) => ("single", id.name.to_string()),
+                        hir::UseKind::Glob => ("glob", String::new()),
+                        hir::UseKind::ListStem => ("stem", String::new()),
+                    };
+                    o.push(("use_kind", s(k)));
+                    o.push(("use_name", s(name)));
+                    let mut targets = Vec::new();
+                    for r in [up.res.type_ns, up.res.value_ns, up.res.macro_ns] {
+                        if let Some(Res::Def(_, d)) = r {
+                            targets.push(s(self.path(d)));
+                        }
+                    }
+                    o.push(("use_targets", J::Arr(targets)));
+                    let vis = tcx.visibility(did);
+                    o.push(("vis", s(match vis { ty::Visibility::Public => "pub".to_string(), _ => "restricted".to_string() })));
+                }
+            }
             _ => return None,
         }
         Some(J::Obj(o))
